@@ -426,7 +426,8 @@ DoUsePar(st, op) ==
   ELSE LET r == HandlerPhase(st1, [client |-> row.client, rtype |-> row.rtype, req |-> row.req, grant |-> row.req,
                                    aud |-> row.aud, redirSent |-> row.redirSent, pkce |-> "none"])
            note == RedirectOf(row.client) \o "|" \o RTypeSorted(row.rtype) \o "|" \o JoinScopes(row.req) \o "|"
-                   \o PushedState \o "|" \o JoinAud(row.aud)
+                   \o PushedState \o "|" \o JoinAud(row.aud) \o "|"
+                   \o (IF row.rtype = "code" THEN "query" ELSE "fragment")     \* no mode was pushed: the default of the pushed response type
        IN Ret(r.st, [r.out EXCEPT !.note = note])
 
 (* ======================================================================== *)
